@@ -119,6 +119,33 @@ def replay_file(path, repo):
     rep = json.load(open(path))
     w = rep.get("witness")
     print("replay of %s (obligation %s)" % (path, rep.get("obligation")))
+    if w and w.get("kind") == "kani-concrete-playback-executed-natively":
+        # re-extract from the CURRENT /repo, put Kani's concrete test back next to the harness, execute natively
+        import kdriver
+        import rsx
+        upath = os.path.join(ROOT, "units", rep["unit"], "unit.json")
+        u = json.load(open(upath))
+        u["name"] = rep["unit"]
+        u["dir"] = os.path.dirname(upath)
+        try:
+            dst, _, _ = kdriver.prepare(u, repo)
+        except (rsx.ExtractError, OSError) as e:
+            print("cannot re-extract: %s" % e)
+            return 2
+        lib = os.path.join(dst, "src", "lib.rs")
+        text = open(lib).read().rstrip()
+        assert text.endswith("}")
+        open(lib, "w").write(text[:-1] + "\n" + w["unit_test"] + "\n}\n")
+        st, rc, out, wall = kdriver._run(["cargo", "kani", "playback", "-Z", "concrete-playback", "--", w["test_name"]], dst, 1800, None)
+        print(out[-1500:])
+        if "test result: FAILED" in out:
+            print("REPRODUCED on the current /repo working tree")
+            return 1
+        if "test result: ok" not in out:
+            print("replay could not be executed (harness does not compile against the working tree?)")
+            return 2
+        print("not reproduced on the current /repo working tree")
+        return 0
     if not w or not w.get("key"):
         print("no concrete input recorded (no-failing-input-found); verifier output follows")
         print(rep.get("verifier_output", ""))
